@@ -108,6 +108,18 @@ CLAIMS = {
     note=NOTE_COMMON + " RwLock acquisitions are ranked like exclusive ones. try_lock acquisitions and the state mutex of a breaker inside its own Drop (unreachable by other threads) are left out of "
          "the ranking; both are counted in the evidence. The instance covers the code paths the recording executed. Found and fixed with this check: D8 (breakers dropped under the manager locks "
          "with listener call-backs; fix: commit a631a53). D7 (append lock-order inversion) was fixed under C10."),
+ "C16": dict(
+    category="proof",
+    text=("Model: the breaker state behind one mutex; every from_* is an atomic compare-and-set whose notification is emitted inside the same critical section (Cas / casRun over any history of "
+          "attempts by any number of threads). Theorems: listener_log_valid_path (the notifications form a path of the state machine under every interleaving), final_state_last, "
+          "one_probe_per_half_open (after a transition into Half-Open the next transition leaves Half-Open: two probes are never admitted in one phase), competing_attempts_one_winner (of any "
+          "number of identical attempts exactly the first succeeds), pass_only_closed_or_probe (a request passes only if it read Closed, or read Open at/after the retry deadline and won the "
+          "Open->Half-Open transition). Tie: 2-3 real threads around each transition on the real breakers under the deterministic scheduler; the Spec replays the schedule log: the listener "
+          "log must be a path from the state left by the setup, every admitted request must have entered the state mutex while it said Closed or have emitted Open->Half-Open itself "
+          "(notifications are logged inside the mutex, so the holder is the emitter), the final state must be the last notification's target."),
+    design_ref="DESIGN.md §6 C16",
+    technique="Lean 4 proof over all histories of an atomic-step model + scheduled executions of the real breakers checked by a log-replay Spec",
+    note=NOTE_COMMON + " Partial as C14: scheduling points are the instrumented lock and atomic operations; the schedule exploration on the implementation is search."),
  "C08": dict(
     category="translation_validation",
     text=("PARTIAL. Proved in Lean: structural theorems about the executable warm-up calculator for every state/threshold/clock (sync_stored_le_max, sync_once_per_second, sync_idempotent, "
